@@ -26,6 +26,7 @@ package evalfilter
 //@   panics maybe
 
 //@ func New(script string) (result *Eval)
+//@   tags C08
 //@   ensures new.ok: result != nil && fresh(result) && evalOK(result) && result.Script == script && result.machine == nil
 //@   panics never
 
@@ -157,6 +158,7 @@ package evalfilter
 
 // ---- the embedding API (C20) --------------------------------------------------------------------
 //@ func (e *Eval) AddFunction(name string, fun interface{})
+//@   tags C08
 //@   requires evalOK(e)
 //@   modifies e.environment.functions[*]
 //@   ensures @C20 addfunction.def: has(e.environment.functions, name) && e.environment.functions[name] === fun
@@ -164,12 +166,14 @@ package evalfilter
 //@   panics never
 
 //@ func (e *Eval) SetVariable(name string, value object.Object)
+//@   tags C08
 //@   requires evalOK(e) && validObj(value)
 //@   modifies e.environment.local[*][*], e.environment.global[*]
 //@   ensures @C20 setvariable.global: old(scopeOf(e.environment, name, len(e.environment.local))) < 0 ==> mapUpdated(e.environment.global, name, value)
 //@   panics never
 
 //@ func (e *Eval) GetVariable(name string) (result object.Object)
+//@   tags C08
 //@   requires evalOK(e)
 //@   modifies nothing
 //@   ensures @C20 getvariable.local: scopeOf(e.environment, name, len(e.environment.local)) >= 0 ==> result === e.environment.local[scopeOf(e.environment, name, len(e.environment.local))][name]
@@ -180,6 +184,7 @@ package evalfilter
 // Execute turns every failure of a run - an error or a panic - into an error value (C08), and
 // Run reports the truth value of what Execute returned (C05, C20).
 //@ func (e *Eval) Execute(obj interface{}) (out object.Object, err error)
+//@   tags C08
 //@   requires evalOK(e) && e.machine != nil && machineOK(e)
 //@   ensures @C08 @C20 execute.result: validObj(out) && (err != nil ==> isNull(out))
 //@   records result
@@ -187,6 +192,7 @@ package evalfilter
 //@   panics never
 
 //@ func (e *Eval) Run(obj interface{}) (result bool, err error)
+//@   tags C08
 //@   requires evalOK(e) && e.machine != nil && machineOK(e)
 //@   ensures @C08 run.ok: e.machine == old(e.machine) && e.environment == old(e.environment)
 //@   ensures @C05 @C20 run.verdict: err == nil ==> result == truthy(lastresult(Execute))
